@@ -56,6 +56,8 @@ fn main() {
         pass: BTreeMap::new(), fail: BTreeMap::new(), extra: BTreeMap::new(),
         max_fail_lines: 2000, fail_lines: 0, samples: vec![],
     };
+    let _ = std::fs::remove_file(format!("{}.hang", &args[3]));
+    ctx::start_watchdog(args[3].clone());
     match args[1].as_str() {
         "replay" => {
             let f = BufReader::new(std::fs::File::open(&args[2]).expect("open cases"));
@@ -63,13 +65,24 @@ fn main() {
                 let line = line.unwrap();
                 if line.trim().is_empty() { continue; }
                 let case: Value = serde_json::from_str(&line).unwrap_or_else(|e| panic!("bad case line {n}: {e}"));
-                dispatch_case(&mut cx, n as u64, &case);
+                ctx::beat(&line);
+                // a panic that escapes the per-call guards of a case function is still data about the code under test
+                let r = std::panic::catch_unwind(std::panic::AssertUnwindSafe(|| dispatch_case(&mut cx, n as u64, &case)));
+                if let Err(e) = r {
+                    let msg = e.downcast_ref::<&str>().map(|s| s.to_string()).or_else(|| e.downcast_ref::<String>().cloned()).unwrap_or_else(|| "panic".into());
+                    let props = if cx.props.is_empty() { vec!["?".to_string()] } else { cx.props.clone() };
+                    for p in props {
+                        cx.bad(&p, "panic_outside_guard", &case, serde_json::json!({"what": "a call made while replaying this case panicked", "msg": msg}));
+                    }
+                }
             }
+            ctx::beat_off();
         }
         // record <kind> <out.ndjson> <n_events> --seed N : drive the real API, log a trace
         "record" => {
             let n: usize = args[4].parse().expect("n_events");
             let mut w = BufWriter::new(std::fs::File::create(&args[3]).expect("create trace"));
+            let r = std::panic::catch_unwind(std::panic::AssertUnwindSafe(|| {
             match args[2].as_str() {
                 "c18" => ops_c18::record(&mut w, seed, n),
                 "c17" => ops_c17::record(&pool, &mut w, seed, n),
@@ -83,6 +96,14 @@ fn main() {
                 "c08" => ops_hull::record(&mut w, seed, n),
                 "c04rerun" => ops_boolops::rerun(&pool, &mut w),
                 k => { eprintln!("unknown record kind {k}"); std::process::exit(2); }
+            }
+            }));
+            if let Err(e) = r {
+                // a panic that escapes the guards of a recorder: reported with the event in progress, like a call that does not return
+                let msg = e.downcast_ref::<&str>().map(|s| s.to_string()).or_else(|| e.downcast_ref::<String>().cloned()).unwrap_or_else(|| "panic".into());
+                let cur = ctx::CURRENT.lock().map(|c| c.clone()).unwrap_or_default();
+                let _ = std::fs::write(format!("{}.hang", &args[3]), serde_json::json!({"panic": msg, "in_progress": cur}).to_string());
+                std::process::exit(3);
             }
             return;
         }
